@@ -94,3 +94,12 @@ for _nm, _fn, _file, _ps, _psd, _tree, _dim, _img in (
                _dim.split("_c_")[-1]: "contract stub: fresh string, tainted iff the argument is", "store_asset/extract_asset": "contract stubs (asset path is a generated name)"},
       min_obligations=10, timeout=300, cost=10,
       assumptions=[NOFAIL, "attribute keys are identifiers (parse_attributes / scanners out of reach), hence not tainted", "configuration -DI18N_DISABLED"])
+
+for _k, _kn in enumerate(["uuid", "title", "author", "language", "date"]):
+    U("taint_epub_package_" + _kn, ["C08"], "h_taint_epub", ["C08/taint_epub.c"], ["epub.c"], plain=True, lib=(), kind="bounded",
+      defines=["-DI18N_DISABLED=1", "-DTAINT_KEY=%d" % _k], cbmc_flags=["--unwind", "40", "--unwindset", "d_string_append_printf.0:92", "--unwinding-assertions", "--object-bits", "12"],
+      bounds={"metadata": "the one key '%s' present" % _kn, "value": "any (2 bytes; the obligation does not depend on content)"},
+      functions=["epub_package_document"],
+      callees={"d_string_append*": "contract stubs: requires the text is not a metadata value", "mmd_print_string_html": "sanitiser (C04)", "HASH_FIND_STR (uthash)": "real macro code over a real one-entry table built with HASH_ADD_KEYPTR",
+               "uuid_new, time, localtime": "stubs"},
+      min_obligations=10, timeout=300, cost=30, assumptions=[NOFAIL, "configuration -DI18N_DISABLED"])
